@@ -1,6 +1,6 @@
 #!/bin/bash
 # usage: try_mutant.sh <patch.diff> <Cnn> [tier] [more Cnn...]  - applies the patch to a scratch worktree and runs the check there
-P=$1; shift
+P=$(realpath $1); shift
 WT=${WT:-/tmp/mywt}
 if [ ! -d $WT ]; then git -C /repo worktree add --detach $WT main >/dev/null 2>&1; fi
 git -C $WT checkout -q -- . ; git -C $WT checkout -q --detach main
